@@ -184,7 +184,9 @@ class CacheStore(object):
         try:
             fd = open(store_filename, 'rb')
         except (IOError, OSError) as e:
-            if e.errno == errno.ENOENT:
+            # File does not exist, or permission denied (e.g. an entry
+            # left behind by a scan that was run as another user)
+            if e.errno in (errno.ENOENT, errno.EACCES):
                 return None
             else:
                 raise
